@@ -38,7 +38,7 @@ Theorem C14_trace_ok_any_fire : forall drv sc fire,
 Proof. exact trace_ok_fire. Qed.
 
 (** ServerBase has no fault path for a return value its out protocol cannot serialise: the
-    full statement (serialiser failures admitted, [scen_adm true]) is FALSE for the ServerBase
+    full statement (serialiser failures allowed, [scen_adm true]) is FALSE for the ServerBase
     call sequence — C14_trace_ok above is the partial statement whose guard
     [is_wsgi drv || sc_ser sc = None] excludes exactly that region — ... *)
 Theorem C14_serverbase_unserialisable_refuted :
